@@ -44,7 +44,12 @@ class SpartanProtocol(BaseGopherProtocol):
         self.selector = urllib.parse.unquote(path, errors="surrogateescape")
         self.selector = self.slashnormalize(self.selector)
 
-        content_length = int(content_length)
+        try:
+            content_length = int(content_length)
+        except ValueError:
+            # More digits than int() converts.
+            self.write_status(4, "Bad request")
+            return
         if content_length:
             try:
                 data = self.rfile.read(content_length)
